@@ -8,6 +8,13 @@ import CJ.Drv.Codec
 * `obfs4|<data>|<mark>,<mark>…` — one mark per obfs4 registration of the phantom
 * `register|<remoteOk>|<post>|<contentLength>|<readable>|<wrapper N/0/1>|<proc>`
 * `bd|…same…|<serverConfNewer>|<proc>` with proc ∈ ok, nobody, legacy, other
+* `remoteaddr|<remote>|<lb>|<values>|<tbl>` — `getRemoteAddr`: `remote` = `nil` or the hex of the string of
+  `parseIP(r.RemoteAddr)`; `lb` = 0/1, that address is 127.0.0.1 or ::1; `values` = `N` (no
+  `X-Forwarded-For` header at all) or the header values in order as hex joined by `,` (`-` = an empty
+  value, so `-,-` = two empty values); `tbl` = `ip:<candidate hex, - for empty>=<hex of the string of the
+  parsed IP | FAIL>;…` — what `net.ParseIP(strings.TrimSpace(candidate))` answers. A candidate that is not
+  in the table is not defaulted: the answer is `missing-key <candidate hex>`.
+  Answers `ip nil` / `ip <hex of the chosen IP string>` / `panic index out of range`.
 Answers: a verdict, `status <code>`, `panic <site>`, `hang`. -/
 namespace CJ.Drv.Ingress
 open CJ.Codec CJ.Ingress CJ.Drv
@@ -45,6 +52,44 @@ def parseWrapper (s : String) : Option (Option Bool) :=
 def parseReq (ro po cl rd wr : String) : Option HttpReq := do
   some ⟨← parseBool ro, ← parseBool po, ← cl.toInt?, ← parseBool rd, ← parseWrapper wr⟩
 
+/-! `getRemoteAddr`: IP strings travel as hex, one character per byte -/
+
+def bytesToString (b : Bytes) : String := String.ofList (b.map fun x => Char.ofNat x.toNat)
+def stringToBytes (s : String) : Bytes := s.toList.map fun c => UInt8.ofNat c.toNat
+
+/-- first character of the sentinel a missing table entry parses to; no decoded byte maps to it -/
+def missingMark : Char := Char.ofNat 0x2205
+
+/-- `ip:<candidate hex>=<hex of the parsed IP string | FAIL>;…` -/
+def parseIpTable (s : String) : Option (List (Bytes × Option String)) :=
+  (fields s ";").mapM fun kv => match kv.splitOn "=" with
+    | [k, v] => match k.splitOn ":" with
+      | ["ip", c] => do
+        let cand ← parseHex c
+        if v == "FAIL" then some (cand, none) else some (cand, some (bytesToString (← parseHex v)))
+      | _ => none
+    | _ => none
+
+/-- the parse function of a table; a candidate without entry gives the sentinel -/
+def tableParse (t : List (Bytes × Option String)) (cand : Bytes) : Option String :=
+  match t.lookup cand with
+  | some r => r
+  | none => some (String.ofList (missingMark :: (toHex cand).toList))
+
+/-- `N` = no header at all, otherwise the values as hex joined by `,` (`-` = an empty value) -/
+def parseValues (s : String) : Option (List Bytes) :=
+  if s == "N" then some [] else (s.splitOn ",").mapM parseHex
+
+def parseRemote (s : String) : Option (Option String) :=
+  if s == "nil" then some none else (parseHex s).map fun b => some (bytesToString b)
+
+def showIp : Option String → String
+  | none => "ip nil"
+  | some s =>
+    match s.toList with
+    | c :: rest => if c == missingMark then "missing-key " ++ String.ofList rest else "ip " ++ toHex (stringToBytes s)
+    | [] => "ip -"
+
 def handle (args : List String) : Option String :=
   match args with
   | ["min", data, ids] => do
@@ -60,6 +105,9 @@ def handle (args : List String) : Option String :=
     some (showOut (fun c => s!"status {c}") (register (← parseReq ro po cl rd wr) (← parseProc proc)))
   | ["bd", ro, po, cl, rd, wr, newer, proc] => do
     some (showOut (fun c => s!"status {c}") (registerBidirectional (← parseReq ro po cl rd wr) (← parseBool newer) (← parseProc proc)))
+  | ["remoteaddr", remote, lb, values, tbl] => do
+    let t ← parseIpTable tbl
+    some (showOut showIp (getRemoteAddr (← parseRemote remote) (← parseBool lb) (← parseValues values) (tableParse t)))
   | _ => none
 
 end CJ.Drv.Ingress
